@@ -15,49 +15,49 @@ CHECKS = {
          "Every constructor path (empty, fromFiber fresh/owned root, setRoot again, fromUncompressed, fromRandom, fromYAMLfile, makePopulated, deepcopy) and every transform result on every tree of T2(2,2) and a T3 slice is checked with the mirror predicate (rank i lists exactly the depth-i fibers, owners, chain, single root); then BFS over histories of insertions at any depth (through the tensor and through sub-fibers), nested populate loops updating every subset of offered references with inner loops optionally skipped, dense reference iteration, fiber assignment and clear on root and sub-fibers, with the predicate evaluated in every reached state; the state key contains the rank lists, so stale entries are distinct states.",
          "Trusted: raw DFS over Fiber.payloads as the ground truth for 'the tree'; bounds 2x2, 3x2, 2x2x2.", "DESIGN.md §3 C02"),
  "C03": ("model_checking", E1,
-         "BFS over histories of getPayload (allocate / no-allocate / caller default), getPayloadRef followed by nothing / <<= / += / *=, writes through up to two handles obtained earlier, getPosition / getPositionRef / getPayload / getPayloadRef with every legal start_pos, at every full and partial point, through Tensor and through the root Fiber, with a dict point->value stepped in lock-step: reads return the model's value and leave tree and rank lists untouched, references alias the stored payload and disturb no other point, position answers do not depend on start_pos. 1-D (shape 3) and 2x2 families run to a fixpoint; 2x2x2 and the via-Fiber 2x2 family to a stated depth; rank-0 tensors by exhaustive short histories.",
+         "BFS over histories of getPayload (allocate / no-allocate / caller default), getPayloadRef followed by nothing / <<= / += / *=, writes through up to two handles obtained earlier, getPosition / getPositionRef / getPayload / getPayloadRef with every legal start_pos, at every full and partial point, through Tensor and through the root Fiber, with a dict point->value stepped in lock-step: reads return the model's value and leave tree and rank lists untouched, references alias the stored payload and disturb no other point, position answers do not depend on start_pos. 1-D (shape 3) and 2x2 families run to a fixpoint; 2x2x2 and the via-Fiber 2x2 family to a stated depth; rank-0 tensors by exhaustive short histories. Later additions: fiber assignment through the handle of a partial point, and -= on leaf references.",
          "Trusted: the dict reference model; value alphabet {0,1,2}; shapes <=3 per rank.", "DESIGN.md §3 C03"),
  "C05": ("exploration", E2,
-         "Every (destination tree, source tree, loop body) triple over F1(N) at depth 1 (unowned, tensor-owned, non-zero leaf default, uncompressed source with every active range) and over T2(2,2) / a T3(2,2,2) slice at depth 2-3, bodies = every assignment of leave / assign / accumulate / set-to-default to offered leaf references and descend / skip to offered sub-fibers, run on the real lshift iterator in lock-step with a nested-dict model: yielded sequence, source payload identity, reference shows z's current value/sub-tree, well-formedness and rank lists at every yield, final raw tree equal to the model (nothing left behind, nothing outside the source touched), source unchanged.",
+         "Every (destination tree, source tree, loop body) triple over F1(N) at depth 1 (unowned, tensor-owned, non-zero leaf default, uncompressed source with every active range) and over T2(2,2) / a T3(2,2,2) slice at depth 2-3, bodies = every assignment of leave / assign / accumulate / set-to-default to offered leaf references and descend / skip to offered sub-fibers, run on the real lshift iterator in lock-step with a nested-dict model: yielded sequence, source payload identity, reference shows z's current value/sub-tree, well-formedness and rank lists at every yield, final raw tree equal to the model (nothing left behind, nothing outside the source touched), source unchanged. Also a depth-2 accumulate kernel whose source tensor's upper rank is uncompressed, with the source's tree and rank lists snapshotted.",
          "Trusted: the nested-dict reference of populate semantics, calibrated on the pinned tree (probe q8: 104 976 cases); unowned destinations only where the library can infer the payload kind (see evidence assumptions).", "DESIGN.md §3 C05"),
  "C06": ("exploration", E2,
-         "Every program (expression of an 11-member einsum family x loop order with operands swizzled to be concordant x uniform tiling of one or two index variables with both tile-loop placements x two-finger / leader-follower intersection) on every operand valuation over a small alphabet (empty operands and cancelling entries included) is executed by an interpreter written in the library's idiom and its output content compared with dense evaluation by nested loops.",
+         "Every program (expression of an 11-member einsum family x loop order with operands swizzled to be concordant x uniform tiling of one or two index variables with both tile-loop placements x two-finger / leader-follower intersection) on every operand valuation over a small alphabet (empty operands and cancelling entries included) is executed by an interpreter written in the library's idiom and its output content compared with dense evaluation by nested loops. Quick also runs wide-output expressions over {-1,0,1} (cancellation followed by a smaller new output coordinate) and 3-rank operands tiled on two ranks.",
          "Trusted: the interpreter mc/kernel.py as a faithful instance of the idiom; dense evaluation; index ranges 2-3, entries in {-1,0,1,2}.", "DESIGN.md §3 C06"),
  "C15": ("model_checking", E1,
-         "(a) every kernel of a C06 sub-family is run with collection off and with collection on for every (or a stated set of) subset(s) of a per-kernel menu of trace registrations: identical output content, Compute.numOps equal to the interpreter's own ledger of executed multiplications / updates / accumulations, Compute.numIters of each iter trace equal to the loop bodies executed at that rank. (b) explicit-state search over sessions: transitions are whole collection sessions from a menu of nine (kernels with all/none/thresholded/consumable traces, an abandoned loop, a projection with matched ranks, a register-only session), the state is the canonical set of Metrics class attributes; the search reaches a fixpoint, and on every transition dump, trace files and output are byte-identical to the same session run from the pristine state.",
+         "(a) every kernel of a C06 sub-family is run with collection off and with collection on for every (or a stated set of) subset(s) of a per-kernel menu of trace registrations: identical output content, Compute.numOps equal to the interpreter's own ledger of executed multiplications / updates / accumulations, Compute.numIters of each iter trace equal to the loop bodies executed at that rank. (b) explicit-state search over sessions: transitions are whole collection sessions from a menu of nine (kernels with all/none/thresholded/consumable traces, an abandoned loop, a projection with matched ranks, a register-only session), the state is the canonical set of Metrics class attributes; the search reaches a fixpoint, and on every transition dump, trace files and output are byte-identical to the same session run from the pristine state. Further families: operands with explicit defaults and empty sub-fibers, matmul with cancelling partial sums under every loop order, the union-assign kernel (<<= at the leaf), and populate_read / populate_write registrations on the outermost output rank.",
          "Trusted: Metrics' state is exactly its class attributes; the interpreter's ledger; output tensors are declared with a shape.", "DESIGN.md §3 C15"),
  "C16": ("exploration", E2,
-         "Loop nests of depth 1-3 (iteration, intersection, iteration over intersection, matrix-vector with populate, Gustavson matrix-matrix, projection) over every operand tree of small universes with explicit defaults and empty sub-fibers, all trace types the nest can emit registered at once: header, one row per simulated access in execution order (independent two-finger simulation incl. trailing peeks; loop bodies), stamp order (strict for iter), coordinates, positions against raw indices in the operand fibers; every flush threshold 2..rows+2 and consumable traces must give identical rows. Destination-side populate traces: header, stamp order, threshold/consumable independence only.",
+         "Loop nests of depth 1-3 (iteration, intersection, iteration over intersection, matrix-vector with populate, Gustavson matrix-matrix, projection) over every operand tree of small universes with explicit defaults and empty sub-fibers, all trace types the nest can emit registered at once: header, one row per simulated access in execution order (independent two-finger simulation incl. trailing peeks; loop bodies), stamp order (strict for iter), coordinates, positions against raw indices in the operand fibers; every flush threshold 2..rows+2 and consumable traces must give identical rows. Destination-side populate traces: header, stamp order, threshold/consumable independence only. Also: populate into a non-empty destination (inserting), an upper rank with tuple coordinates, and every trace registered alone (its rows, stamps aside, must equal those obtained with all traces registered).",
          "Trusted: the trace-row simulation (calibrated on 19 683 nests, probe q27); thresholds <= 9 plus 1000.", "DESIGN.md §3 C16"),
  "C07": ("exploration", E2,
          "Every fiber of F1(N) (N<=5, thorough 6) x declared shape x every active range x owned/unowned x both rank formats is run through every traversal mode (__iter__, iterOccupancy, iterRange over all s,e, iterActive, iterShape, iterActiveShape, iterRangeShape with steps, the three Ref forms complete and abandoned with the exact set of inserted coordinates), every legal start_pos incl. chained windows from getSavedPos(), the dense co-iterators and their Ref forms on pairs/triples, project with increasing and decreasing affine transforms, every interval and start_pos, prune with a predicate family, lazy fibers traversed twice and materialised with fromLazy; every yielded sequence is compared with list comprehensions over the cell vector and non-Ref traversals must leave the raw tree unchanged.",
          "Trusted: list-comprehension oracles over the cell vector; for a shortcut that skips part of the slice only 'suffix of the un-shortcut yield' is demanded.", "DESIGN.md §3 C07"),
  "C10": ("model_checking", E1,
-         "For every tree of T2(2,2) and a T3 slice in several tensor configurations (formats, zero/non-zero default, declared/estimated shape): each of 38 value-returning operations is bracketed by a deep structural snapshot and an object-identity set (Fiber, Payload box, Rank, RankAttrs, default boxes) - operand unchanged, nothing shared - and then extended by every follow-up mutation of an 8-entry menu applied to the result (operand must not change) and to the operand (result must not change): all histories of length 2. Each of 33 read-only operations (reads, iterators, co-iteration, ==, counting, shape queries, printing, YAML dump, footprints, nonEmpty, slicing) is bracketed by tree + rank-list snapshots; the three renderers are run twice per tree and compared byte for byte.",
+         "For every tree of T2(2,2) and a T3 slice in several tensor configurations (formats, zero/non-zero default, declared/estimated shape): each of 38 value-returning operations is bracketed by a deep structural snapshot and an object-identity set (Fiber, Payload box, Rank, RankAttrs, default boxes) - operand unchanged, nothing shared - and then extended by every follow-up mutation of an 8-entry menu applied to the result (operand must not change) and to the operand (result must not change): all histories of length 2. Each of 33 read-only operations (reads, iterators, co-iteration, ==, counting, shape queries, printing, YAML dump, footprints, nonEmpty, slicing) is bracketed by tree + rank-list snapshots; the three renderers are run twice per tree and compared byte for byte. Operations also include second-generation transforms (flatten / merge / swizzle of a flattened tensor, split of a split, partial swizzles); snapshots are deep-frozen and identity sets include rank-id and shape lists.",
          "Trusted: obs.ids() reaches every mutable object a result can share; follow-up menu of 8 mutations; trees up to 2x2x2.", "DESIGN.md §3 C10"),
  "C19": ("exploration", E2,
-         "The real & is executed under Metrics with consumable intersect_0/intersect_1 traces for every top-level pair of F1(5) and for 1-3 consecutive rows under an outer rank against a fixed or per-row second operand; the same traces are fed to the real TwoFinger / SkipAhead / LeaderFollower models fiber by fiber and in one shot and the totals compared with independent merges of the raw coordinate lists; Compute.numSwaps is compared with a per-round, per-group charge recomputed from the tree for every tree of four universes x radix {2,3,4,N} x latency {1,2,N} x two payload valuations.",
+         "The real & is executed under Metrics with consumable intersect_0/intersect_1 traces for every top-level pair of F1(5) and for 1-3 consecutive rows under an outer rank against a fixed or per-row second operand; the same traces are fed to the real TwoFinger / SkipAhead / LeaderFollower models fiber by fiber and in one shot and the totals compared with independent merges of the raw coordinate lists; Compute.numSwaps is compared with a per-round, per-group charge recomputed from the tree for every tree of four universes x radix {2,3,4,N} x latency {1,2,N} x two payload valuations. A third payload valuation turns some stored values into explicit zeros (keeping every fiber non-empty) and must give the same swap count.",
          "Trusted: the independent merge counters (self-checked against the totals pinned by test_intersector.py / test_compute.py at start-up); where the statement leaves a reading open (content-free child as a list, tie-break of equal heads) every consistent reading is accepted.", "DESIGN.md §3 C19"),
  "C18": ("exploration", E2,
-         "Every tensor of T2(2,2), T2(3,2), a T3(2,2,2) slice (explicit defaults and empty sub-fibers included) and a non-zero-default family is combined with specification families (distinct prime widths x formats {missing,C,U}^depth x root variants; a pairwise covering array over all 6*depth+2 specification fields plus degenerate specs; thorough: the full product of one rank's fields) and every query (getFiber / getSubTree at every point prefix, getRank, getRoot, getTensor, the get*Bits getters) is compared with sums recomputed from a raw walk of the tree spec.",
+         "Every tensor of T2(2,2), T2(3,2), a T3(2,2,2) slice (explicit defaults and empty sub-fibers included) and a non-zero-default family is combined with specification families (distinct prime widths x formats {missing,C,U}^depth x root variants; a pairwise covering array over all 6*depth+2 specification fields plus degenerate specs; thorough: the full product of one rank's fields) and every query (getFiber / getSubTree at every point prefix, getRank, getRoot, getTensor, the get*Bits getters) is compared with sums recomputed from a raw walk of the tree spec. A further family gives the tensor's own ranks U formats while the specification omits the format (the specification decides).",
          "Trusted: the footprint oracle mc/ref_c18.py, calibrated at start-up against the totals pinned in test/test_format.py; tensors have declared shapes.", "DESIGN.md §3 C18"),
  "C20": ("exploration", E2,
-         "Every tensor of depth 1-3 over small shapes (stored-empty fibers, absent fibers and the all-zero tensor included) x all 3^depth descriptors over {U,C,B} x shape argument {none, own, own+1} (+ mask-word boundary shapes 31..65) is encoded by the real Codec driven as swoop_util does with a stub cache; an independent decoder of the documented layouts must reproduce the content, scanning each encoded fiber through its handle API must yield the decoded elements, coordToHandle must return the first stored coordinate >= q for every q, getSize must equal the stored word count, and child links of U fibers must address the right child.",
+         "Every tensor of depth 1-3 over small shapes (stored-empty fibers, absent fibers and the all-zero tensor included) x all 3^depth descriptors over {U,C,B} x shape argument {none, own, own+1} (+ mask-word boundary shapes 31..65) is encoded by the real Codec driven as swoop_util does with a stub cache; an independent decoder of the documented layouts must reproduce the content, scanning each encoded fiber through its handle API must yield the decoded elements, coordToHandle must return the first stored coordinate >= q for every q, getSize must equal the stored word count, and child links of U fibers must address the right child. Coordinate lookup is also checked for every ordered sequence of 2-3 queries on one fresh encoding of 1-D fibers over 4-5 coordinates.",
          "Trusted: the layout decoder mc/ref_c20.py (calibrated on 11 688 encodes, probe q24); getSize is a regression oracle; child links of C/B fibers are not demanded (see DESIGN.md).", "DESIGN.md §3 C20"),
  "C09": ("exploration", E2,
-         "Every tree of T2(3,2) (thorough T2(3,3)), T3(2,2,2), a depth-4 family and the empty tensor, as tensor with declared / estimated shape and as raw fiber, is run through swizzleRanks for every permutation and back, swapRanks at every depth twice, flattenRanks for every (depth, levels) x 5 styles followed by unflattenRanks for the invertible ones, mergeRanks absolute/relative with sum and max, split followed by flatten-absolute, the *Below forms and updateCoords / updatePayloads at every depth; content(result) must equal the image of the original content under the stated coordinate map, inverses must restore it, and every result must be well-formed with mirrored rank lists.",
+         "Every tree of T2(3,2) (thorough T2(3,3)), T3(2,2,2), a depth-4 family and the empty tensor, as tensor with declared / estimated shape and as raw fiber, is run through swizzleRanks for every permutation and back, swapRanks at every depth twice, flattenRanks for every (depth, levels) x 5 styles followed by unflattenRanks for the invertible ones, mergeRanks absolute/relative with sum and max, split followed by flatten-absolute, the *Below forms and updateCoords / updatePayloads at every depth; content(result) must equal the image of the original content under the stated coordinate map, inverses must restore it, and every result must be well-formed with mirrored rank lists. A second-generation family (mc/compose.py) applies every legal pair of transforms (split incl. relative / re-split, swizzle, swap, flatten, unflatten) to tensors with extents 2,3,2 and also requires the inverse permutation to restore the content.",
          "Trusted: the coordinate-map oracle mc/ref_c09.py (no fibertree import); flatten absolute/relative with colliding elements raises by design and is not judged.", "DESIGN.md §3 C09"),
  "C11": ("exploration", E2,
-         "All 14 binary and 5 in-place operators over 7 operand-kind pairs (box/scalar/element combinations) on a value alphabet of ints and floats are compared with the same Python operator on the raw values (value and exact type; in-place forms must return and update the same box; <<= replaces the value); every ordered pair of F1(4,{1,2}) and every scalar in {0,1,2,-1} for fiber + * += *= radd rmul against dense vectors, with the in-place form's content compared with the value-returning form's. A form is demanded only where the class defines (or at the pinned tree defined) the dunder; the list is recorded so a deletion is reported.",
+         "All 14 binary and 5 in-place operators over 7 operand-kind pairs (box/scalar/element combinations) on a value alphabet of ints and floats are compared with the same Python operator on the raw values (value and exact type; in-place forms must return and update the same box; <<= replaces the value); every ordered pair of F1(4,{1,2}) and every scalar in {0,1,2,-1} for fiber + * += *= radd rmul against dense vectors, with the in-place form's content compared with the value-returning form's. A form is demanded only where the class defines (or at the pinned tree defined) the dunder; the list is recorded so a deletion is reported. Two in-place fiber forms in a row must still agree with dense evaluation; results of value-returning fiber forms are updated in place afterwards and the operands re-checked; element operands sit at different coordinates.",
          "Trusted: Python's operator module on raw values; operator forms no class ever defined are executed but not demanded.", "DESIGN.md §3 C11"),
  "C12": ("exploration", E2,
-         "a == b iff content(a) == content(b) on ALL ordered pairs of F1(4,{1,2}), T2(2,2,{1,2}) (83 521 pairs), T3(2,2,1) and a one-edit neighbourhood slice of T3(2,2,2), in unowned / tensor-owned / mixed variants with different declared shapes and non-zero defaults; all ordered triples of F1(3) for reflexivity, symmetry, transitivity; isEmpty, countValues, nonEmpty (equal content, no explicit default, no empty sub-fiber), deepcopy on every tree; operands, tensors and rank lists unchanged by every comparison.",
+         "a == b iff content(a) == content(b) on ALL ordered pairs of F1(4,{1,2}), T2(2,2,{1,2}) (83 521 pairs), T3(2,2,1) and a one-edit neighbourhood slice of T3(2,2,2), in unowned / tensor-owned / mixed variants with different declared shapes and non-zero defaults; all ordered triples of F1(3) for reflexivity, symmetry, transitivity; isEmpty, countValues, nonEmpty (equal content, no explicit default, no empty sub-fiber), deepcopy on every tree; operands, tensors and rank lists unchanged by every comparison. Also trees completed after construction through append / extend / position assignment.",
          "Trusted: independent content extraction from the tree spec.", "DESIGN.md §3 C12"),
  "C13": ("exploration", E2,
          "Every rectangular nest of the stated shapes (depth 1-4, ints and floats, zero and non-zero leaf default, all-default nests and unit dimensions included) through Fiber/Tensor.fromUncompressed (content, shape, no stored defaults) and uncompress with own/imposed shape; YAML dump/load and fiber2dict/dict2fiber round trips of every such tensor/fiber, rank-0 tensors, named tensors and tensors after one transform (flatten -> tuple coordinates, split, swizzle); fromRandom for seeds 0..31 x shapes x densities: reproducible under perturbed global random state, inside the shape, full at density 1.",
          "Trusted: nests as ground truth; the random module's state is saved/restored per case.", "DESIGN.md §3 C13"),
  "C14": ("exploration", E2,
-         "For every tree of the stated universes x shape mode (declared / estimated) x leaf default {0,7} x every format assignment in {C,U}^depth x mutable hint, every transform of C08/C09 with every parameter choice is checked for documented rank-id renaming, re-arranged authoritative shape, carried leaf default / per-rank formats / mutable hint, every stored coordinate inside reported shape and active range (iterActive == iterOccupancy); every lazy result of & | ^ - <<, intersection, union, prune, coiter*, project for rank id and active range; unowned fibers with own attributes joining a tensor via fromFiber/setRoot must report the rank's attributes.",
+         "For every tree of the stated universes x shape mode (declared / estimated) x leaf default {0,7} x every format assignment in {C,U}^depth x mutable hint, every transform of C08/C09 with every parameter choice is checked for documented rank-id renaming, re-arranged authoritative shape, carried leaf default / per-rank formats / mutable hint, every stored coordinate inside reported shape and active range (iterActive == iterOccupancy); every lazy result of & | ^ - <<, intersection, union, prune, coiter*, project for rank id and active range; unowned fibers with own attributes joining a tensor via fromFiber/setRoot must report the rank's attributes. The second-generation family (mc/compose.py) checks rank ids, authoritative shape and containment in shape and active range after every legal pair of transforms on tensors with distinct extents.",
          "Trusted: the carry-over oracle mc/ref_c14.py fixed by the survey probes q14/q25; with estimated shapes nothing is demanded of the authoritative shape.", "DESIGN.md §3 C14"),
  "C08": ("exploration", E2,
          "Every fiber of F1(N) (N<=5, thorough 6) x {default range, declared shape, every active range} x splitUniform (every step, halos 0..2, relativeCoords), splitNonUniform (every strictly increasing split list), splitEqual, splitUnEqual (every composition), / k and // k, a non-zero-default family, the same at every split depth of T2/T3 trees through four call forms (Fiber depth=, Tensor depth=, Tensor rankid=, owned root rankid=) and nested re-splits with the tiling clause; the raw structure of the result (upper coordinates, each lower fiber's coordinates, payload values and active range) is compared with a partition specification recomputed from the sorted element list.",
